@@ -84,6 +84,52 @@ def decision_list(inner: ast.For, ren, value_name_hint=None):
     return None
 
 
+def decision_from_candidates(inner: ast.For, ren):
+    """`cand = [K1, K2]; if C: cand.append(K3); var = next((D[k] for k in cand if k in D), default)` -- the first candidate key the mapping holds.
+    -> (var, [(cond, value)], default) in the same vocabulary as the if/elif chain, or None"""
+    body = inner.body
+    for i, s in enumerate(body):
+        if not (isinstance(s, ast.Assign) and len(s.targets) == 1 and isinstance(s.targets[0], ast.Name) and isinstance(s.value, ast.Call)
+                and isinstance(s.value.func, ast.Name) and s.value.func.id == "next" and len(s.value.args) == 2
+                and isinstance(s.value.args[0], ast.GeneratorExp)):
+            continue
+        ge = s.value.args[0]
+        if len(ge.generators) != 1 or len(ge.generators[0].ifs) != 1 or not isinstance(ge.generators[0].target, ast.Name):
+            return None
+        g = ge.generators[0]
+        k = g.target.id
+        # elt = D[k], condition = k in D
+        if not (isinstance(ge.elt, ast.Subscript) and isinstance(ge.elt.slice, ast.Name) and ge.elt.slice.id == k and isinstance(g.ifs[0], ast.Compare)
+                and len(g.ifs[0].ops) == 1 and isinstance(g.ifs[0].ops[0], ast.In) and isinstance(g.ifs[0].left, ast.Name) and g.ifs[0].left.id == k
+                and ast.dump(g.ifs[0].comparators[0]) == ast.dump(ge.elt.value)):
+            return None
+        D = ge.elt.value
+        cands = []          # (condition node or None, key node)
+        if isinstance(g.iter, (ast.List, ast.Tuple)):
+            cands = [(None, e) for e in g.iter.elts]
+        elif isinstance(g.iter, ast.Name):
+            cname = g.iter.id
+            for p_ in body[:i]:
+                if isinstance(p_, ast.Assign) and len(p_.targets) == 1 and isinstance(p_.targets[0], ast.Name) and p_.targets[0].id == cname \
+                        and isinstance(p_.value, (ast.List, ast.Tuple)):
+                    cands = [(None, e) for e in p_.value.elts]
+                elif isinstance(p_, ast.If) and not p_.orelse and len(p_.body) == 1 and isinstance(p_.body[0], ast.Expr) and isinstance(p_.body[0].value, ast.Call) \
+                        and isinstance(p_.body[0].value.func, ast.Attribute) and p_.body[0].value.func.attr == "append" \
+                        and isinstance(p_.body[0].value.func.value, ast.Name) and p_.body[0].value.func.value.id == cname and len(p_.body[0].value.args) == 1:
+                    cands.append((p_.test, p_.body[0].value.args[0]))
+                elif any(isinstance(x, ast.Name) and x.id == cname for x in ast.walk(p_)):
+                    return None
+        if not cands:
+            return None
+        chain = []
+        for cond, key in cands:
+            member = ast.Compare(key, [ast.In()], [D])
+            test = member if cond is None else ast.BoolOp(ast.And(), [cond, member])
+            chain.append((_canon(ast.fix_missing_locations(ast.Expression(test)).body, ren), _canon(ast.Subscript(D, key, ast.Load()), ren)))
+        return s.targets[0].id, chain, _canon(s.value.args[1], ren)
+    return None
+
+
 def _canon(node, ren):
     import copy
     return ast.unparse(Canon(ren).visit(copy.deepcopy(node)))
@@ -119,6 +165,8 @@ def check_function(ctx: core.Ctx, rel, qual, fn: ast.FunctionDef, dict_param: st
     if vi[0]:
         ren[vi[0]] = "j"
     dl = decision_list(inner, ren)
+    if dl is None:
+        dl = decision_from_candidates(inner, ren)
     if dl is None:
         ctx.error(f"{where}: the value decision list of the noise nest is not an if/elif/else chain assigning one variable")
         return None
